@@ -113,5 +113,27 @@ EXTRA2 = {
  "C19": " Notes of locally defined Note subclasses and projects carrying lambdas / local helper objects; foreign-owned notes under warnings-as-errors.",
  "C20": " Other writers (direct assignments, a second bundle) move the destination between strictly rising sends.",
 }
+# round 9
+EXTRA3 = {
+ "C01": " Deterministic schedules of several threads (rvmon.sched: loaders next to attach / note / save tasks on their own objects, switching at I/O calls) and free-running saving threads must give each task its single-thread result.",
+ "C02": " Written files are read back through every stream kind (buffered, raw, r+b, mmap, gzip/bz2/lzma.open) for payloads of 64 KiB and more.",
+ "C03": " Names with lone surrogates are refused or written as UTF-8; SpectraVoice rows written through either of its two paths in any order reach the file.",
+ "C04": " The same bytes are loaded through every stream kind and under odd relative file names.",
+ "C05": " Module lists re-ordered by list operations are saved (index / hash unchanged); threads each saving their own objects get single-thread bytes.",
+ "C07": " connect() is also called by keyword and through functools.partial.",
+ "C08": " Thread schedules as in C01; big embedded projects are loaded again after the first copy was re-wired.",
+ "C09": " A load-free thread mix (fan-out, MetaModule mirroring, construction, saving) with strictness probes inside change handlers: every out-of-range assignment is refused.",
+ "C10": " Nested proxies (outer slot onto an inner MetaModule's slot); application refinements of the range classes.",
+ "C11": " Subclasses that re-declare a ranged option or add options after the stock class was used.",
+ "C12": " Patterns printed before they are sized; deep-copy backups taken during the operation sequences keep their image.",
+ "C13": " ... and after application classes referred to, deep-copied and edited, or borrowed the class-level tables.",
+ "C14": " Thread schedules as in C01 (attach worlds and 16-bit note images next to loads of old-version files).",
+ "C15": " copy.copy templates and falsy MetaModule subclasses, at top level and nested.",
+ "C16": " Pickled, deep-copied and shallow-copied instruments (legacy layouts included) save the same bytes.",
+ "C17": " Patterns re-created field by field, deep-copied, pickled; every public spelling of attaching a module owned elsewhere.",
+ "C18": " Big caller-supplied pipe / socket / gzip streams and text-mode file objects under the descriptor monitor.",
+ "C19": " Note subclasses that are falsy when empty.",
+ "C20": " One Mapping object in two slots; curve tables as tuple / array / numpy arrays; mappings naming controllers the target lacks.",
+}
 for _pid in CHECKS:
-    CHECKS[_pid]["text"] += EXTRA.get(_pid, "") + EXTRA2.get(_pid, "") + " A few shards of every run are replayed with DEBUG logging, under python -O and under python -W error."
+    CHECKS[_pid]["text"] += EXTRA.get(_pid, "") + EXTRA2.get(_pid, "") + EXTRA3.get(_pid, "") + " A few shards of every run are replayed with DEBUG logging and under python -O, -W error and -bb."
